@@ -11,13 +11,13 @@ package security
 //@   locals missing:[]string r:string found:bool s:string
 //@   ensures* accept: (forall j int :: 0 <= j && j < len(expected) ==> (exists k int :: 0 <= k && k < len(actual) && actual[k] == expected[j])) ==> result == nil
 //@   ensures* reject: result == nil ==> (forall j int :: 0 <= j && j < len(expected) ==> (exists k int :: 0 <= k && k < len(actual) && actual[k] == expected[j]))
-//@   loop 1 invariant bounds: 0 - 1 <= rangeindex && len(missing) >= 0 && (missing.arr == 0 || fresh(missing))
-//@   loop 1 invariant none.missing: len(missing) == 0 ==> (forall j int :: 0 <= j && j <= rangeindex ==> (exists k int :: 0 <= k && k < len(actual) && actual[k] == expected[j]))
-//@   loop 1 invariant some.missing: len(missing) > 0 ==> (exists j int :: 0 <= j && j <= rangeindex && (forall k int :: 0 <= k && k < len(actual) ==> actual[k] != expected[j]))
-//@   loop 2 invariant bounds: 0 <= rangeindex && rangeindex < len(expected) && len(missing) >= 0 && (missing.arr == 0 || fresh(missing))
-//@   loop 2 invariant notfound: forall k int :: 0 <= k && k <= rangeindex#2 ==> actual[k] != expected[rangeindex]
-//@   loop 2 invariant keep.none: len(missing) == 0 ==> (forall j int :: 0 <= j && j < rangeindex ==> (exists k int :: 0 <= k && k < len(actual) && actual[k] == expected[j]))
-//@   loop 2 invariant keep.some: len(missing) > 0 ==> (exists j int :: 0 <= j && j < rangeindex && (forall k int :: 0 <= k && k < len(actual) ==> actual[k] != expected[j]))
+//@   loop 1 invariant bounds: 0 - 1 <= rangeidx(1) && len(missing) >= 0 && (missing.arr == 0 || fresh(missing))
+//@   loop 1 invariant none.missing: len(missing) == 0 ==> (forall j int :: 0 <= j && j <= rangeidx(1) ==> (exists k int :: 0 <= k && k < len(actual) && actual[k] == expected[j]))
+//@   loop 1 invariant some.missing: len(missing) > 0 ==> (exists j int :: 0 <= j && j <= rangeidx(1) && (forall k int :: 0 <= k && k < len(actual) ==> actual[k] != expected[j]))
+//@   loop 2 invariant bounds: 0 <= rangeidx(1) && rangeidx(1) < len(expected) && len(missing) >= 0 && (missing.arr == 0 || fresh(missing))
+//@   loop 2 invariant notfound: forall k int :: 0 <= k && k <= rangeidx(2) ==> actual[k] != expected[rangeidx(1)]
+//@   loop 2 invariant keep.none: len(missing) == 0 ==> (forall j int :: 0 <= j && j < rangeidx(1) ==> (exists k int :: 0 <= k && k < len(actual) && actual[k] == expected[j]))
+//@   loop 2 invariant keep.some: len(missing) > 0 ==> (exists j int :: 0 <= j && j < rangeidx(1) && (forall k int :: 0 <= k && k < len(actual) ==> actual[k] != expected[j]))
 //@   modifies* nothing
 //@   frameprop C06
 
